@@ -173,6 +173,7 @@ def run_batch(run, frames, label, wit_extra=None, followups=(), big_device=False
     batch; followups: [(delay, station, octets)] injected afterwards"""
     CLOCK.reset()
     lan = FaultNet("lan", Plan())
+    lan.frame_cap = 10 ** 6
     dev = Device(lan)
     if big_device:
         for k in range(2, 30):
